@@ -24,6 +24,22 @@ def _nested(fi: FunctionInfo, name: str) -> FunctionInfo | None:
     return next((f for f in fi.nested if f.name == name), None)
 
 
+def _callback(an: Analysis, f: FunctionInfo, cb: ast.AST | None) -> tuple[FunctionInfo | None, list[ast.AST]]:
+    """(function, arguments pre-bound with functools.partial) for a registered callback expression."""
+    prog = an.prog
+    bound: list[ast.AST] = []
+    if isinstance(cb, ast.Call) and an.callee(f, cb) == "functools.partial" and cb.args and not cb.keywords:
+        bound = list(cb.args[1:])
+        cb = cb.args[0]
+    if isinstance(cb, ast.Name):
+        fn = _nested(f, cb.id)
+        if fn is None:
+            t = prog.functions.get(prog.resolve_global(f.module, cb.id) or "")
+            fn = t if t is not None and t.module is f.module else None
+        return fn, bound
+    return None, []
+
+
 def check(an: Analysis) -> None:
     prog = an.prog
     f = prog.fn(CALL)
@@ -51,17 +67,29 @@ def check(an: Analysis) -> None:
             regs["timeout"] = (n, c.args[1] if len(c.args) > 1 else None)
     awaits = [n for n in g.nodes if n.kind == "await"]
     closures: dict[str, FunctionInfo] = {}
+    param_roles: dict[str, dict[str, set[str]]] = {}
     for role in ("completion", "result", "timeout"):
         if role not in regs:
             ob.fail(f, None, f"the {role} callback is never registered")
             continue
         n, cb = regs[role]
         ob.inst(f, n.ast, role)
-        fn = _nested(f, cb.id) if isinstance(cb, ast.Name) else None
+        fn, bound = _callback(an, f, cb)
         if fn is None:
-            ob.fail(f, n.ast, f"the {role} callback is not a local function of __call__")
+            ob.fail(f, n.ast, f"the {role} callback is not a function of this module (a closure of __call__, or a module-level function, possibly bound with partial)")
         else:
             closures[role] = fn
+            # roles of the callback's parameters: leading ones from partial(...) / call_later's extra arguments (what they
+            # denote in __call__), the last one is the object the callback is registered on
+            params = fn.param_names()
+            extra = list(n.ast.args[2:]) if role == "timeout" else []  # type: ignore[union-attr]
+            given = bound + extra
+            roles: dict[str, set[str]] = {}
+            for pname, a in zip(params, given):
+                roles[pname] = {r_ for leaf, r_ in ((TASK, "task"), (FUT, "future"), (TIMER, "timer")) if leaf in d.origins(a)}
+            if role != "timeout" and len(params) == len(given) + 1:
+                roles[params[-1]] = {"task" if role == "completion" else "future"}
+            param_roles[fn.qualname] = roles
         w = g.ordered(lambda x, n=n: x is n, lambda x: x in awaits)
         if w is not None:
             ob.fail(f, n.ast, f"an await is reachable before the {role} callback was registered", CFG.show_path(w))
@@ -72,8 +100,8 @@ def check(an: Analysis) -> None:
         c = regs["timeout"][0].ast
         if not (c.args and "attr:self._timeout" in d.of(c.args[0])):
             ob.fail(f, c, "the timer delay is not self._timeout")
-        tcb = _nested(f, c.args[1].id) if len(c.args) > 1 and isinstance(c.args[1], ast.Name) else None
-        reads_closure = tcb is not None and not tcb.param_names() and any(isinstance(x, ast.Name) and FUT in Deps(prog, tcb).origins(x) for x in tcb.own_nodes())
+        tcb = closures.get("timeout")
+        reads_closure = tcb is not None and tcb.outer is f and not tcb.param_names() and any(isinstance(x, ast.Name) and FUT in Deps(prog, tcb).origins(x) for x in tcb.own_nodes())
         if not ((len(c.args) >= 3 and val_is(c.args[2], FUT)) or (len(c.args) == 2 and reads_closure)):
             ob.fail(f, c, "the timer callback does not receive the result future")
         tv = prog.cls("helpers.timeouted._AsyncTimeout").attr_val.get("_timeout", [])
@@ -96,7 +124,10 @@ def check(an: Analysis) -> None:
                 out.add(role)
         # a closure parameter receives the object it is registered on / called with
         if isinstance(e, ast.Name) and e.id in fn.param_names():
-            if fn is closures.get("completion"):
+            known = param_roles.get(fn.qualname, {})
+            if e.id in known:
+                out |= known[e.id]
+            elif fn is closures.get("completion"):
                 out.add("task")
             elif fn is closures.get("result") or fn is closures.get("timeout"):
                 out.add("future")
